@@ -1697,11 +1697,12 @@ impl Object for Rectangle {
         if arr.len() != 4 {
             bail!("len != 4 {:?}", arr);
         }
+        // (a coordinate may be given as a reference to a number)
         Ok(Rectangle {
-            left:   arr[0].as_number()?,
-            bottom: arr[1].as_number()?,
-            right:  arr[2].as_number()?,
-            top:    arr[3].as_number()?
+            left:   f32::from_primitive(arr[0].clone(), r)?,
+            bottom: f32::from_primitive(arr[1].clone(), r)?,
+            right:  f32::from_primitive(arr[2].clone(), r)?,
+            top:    f32::from_primitive(arr[3].clone(), r)?
         })
     }
 }
